@@ -328,6 +328,7 @@ static void parseQuery(void *inFrame, lltd_iface_state *st, void *iface_ctx) {
 
     probe_t *node = st->see_list;
     uint16_t remaining = num_descs;
+    uint16_t sent = 0;
     while (node != NULL && remaining > 0) {
         lltd_probe_desc_wire_t wire;
         lltd_port_memset(&wire, 0, sizeof(wire));
@@ -344,12 +345,22 @@ static void parseQuery(void *inFrame, lltd_iface_state *st, void *iface_ctx) {
 
         node = (probe_t *)node->nextProbe;
         remaining--;
+        sent++;
     }
+
+    /* Observations that did not fit stay queued: say so (M flag) and deliver them on the next Query. */
+    respH->numDescs = lltd_htons((uint16_t)(sent | (node != NULL ? 0x8000u : 0u)));
 
     (void)lltd_port_send_frame(iface_ctx, buffer, offset);
     lltd_port_free(buffer);
 
-    lltd_state_clear_seen_probes(st);
+    while (sent > 0 && st->see_list != NULL) {
+        probe_t *next = (probe_t *)st->see_list->nextProbe;
+        lltd_port_free(st->see_list);
+        st->see_list = next;
+        st->see_list_count--;
+        sent--;
+    }
 }
 
 static void sendLargeTlvResponse(lltd_iface_state *st,
